@@ -3,7 +3,7 @@
    (decidable guards). *)
 From Coq Require Import List NArith ZArith Bool Lia.
 From Dials Require Import Base.Outcome Base.Runes Reflect.Ty Reflect.Heap Copy.DeepCopy Copy.DeepCopySpec
-  Copy.DeepCopyBasics Copy.DeepCopyInv Copy.DeepCopyTerm Copy.DeepCopyBisim Copy.DeepCopySharing Copy.Canon.
+  Copy.DeepCopyBasics Copy.DeepCopyInv Copy.DeepCopyTerm Copy.DeepCopyBisim Copy.DeepCopySharing Copy.DeepCopyTotal Copy.Canon.
 Import ListNotations.
 Open Scope N_scope.
 
@@ -105,6 +105,17 @@ Example mix_copies :
   | _ => false
   end = true.
 Proof. vm_compute. reflexivity. Qed.
+
+Example any_guard_total : c03_guard_total h_any 1 0 3 [] v_any = true.
+Proof. vm_compute. reflexivity. Qed.
+
+Example mix_guard_total : c03_guard_total h_mix 7 3 4 [(5, 2%nat); (1, 1%nat); (6, 1%nat)] v_any = true.
+Proof. vm_compute. reflexivity. Qed.
+
+(* a slice-only cycle (s[0] = s with s []interface{}) has no ranking: outside the guard *)
+Definition h_slicecycle : heap := [(0, OArr [HIface 1 (HSlice (Some (mk_sref 0 0 1 1)))])].
+Example slicecycle_outside_guard : forall r, wf_rankb h_slicecycle 5 5 [(0, r)] = false.
+Proof. intro r. unfold wf_rankb. simpl. rewrite Nat.ltb_irrefl. rewrite !andb_false_r. reflexivity. Qed.
 
 (* ---- the theorems with decidable guards ---- *)
 Theorem deep_copy_expands_once_b : forall h n0 v fuel st' v',
